@@ -29,6 +29,7 @@ import z3
 
 from contracts import jumpi_unit as JU
 from pyvc import loader
+from pyvc.interp import PathEnd, _ENGINE
 from pyvc.pack import Case
 
 loader.import_repo()
@@ -79,8 +80,403 @@ def jumpi_cases():
     return out
 
 
+# ---------------------------------------------------------------------------------------
+# shared: the solver as a contract
+
+
+class Oracle:
+    """Exec.check / Path.check by contract: the answer is unknown to the proof (every answer is
+    explored); an `unsat` answer carries the hypothesis  PC => not query  (solver soundness),
+    nothing is promised for `sat` / `unknown`."""
+
+    def __init__(self, ctx, PC):
+        self.ctx = ctx
+        self.PC = PC
+        self.asked = []
+
+    def __call__(self, q):
+        k = self.ctx.choose(3, "solver answer")
+        ans = ("unsat", "sat", "unknown")[k]
+        if ans == "unsat":
+            self.ctx.assume_checked(z3.Implies(self.PC, z3.Not(q)))
+        self.asked.append((q, ans))
+        return {"unsat": z3.unsat, "sat": z3.sat, "unknown": z3.unknown}[ans]
+
+
+class NS:
+    def __init__(self, **kw):
+        self.__dict__.update(kw)
+
+
+class RecPath:
+    def __init__(self, ctx=None, PC=None):
+        self.appended = []
+
+    def append(self, cond, branching=False):
+        self.appended.append((cond, branching))
+
+
+# ---------------------------------------------------------------------------------------
+# Exec.check / quick_custom_check
+
+
+class GhostConds:
+    """ex.path.conditions: membership is unknown to the proof; a member is implied by PC"""
+
+    def __init__(self, ctx, PC):
+        self.ctx, self.PC = ctx, PC
+        self.queries = []
+
+
+def _ghost_conds_contains(interp, container, item):
+    b = container.ctx.choose(2, "membership") == 0
+    if b:
+        container.ctx.assume_checked(z3.Implies(container.PC, item))
+    container.queries.append((item, b))
+    return b
+
+
+def check_cases():
+    import halmos.sevm as hs
+    from halmos.utils import f_sha3_256_name
+
+    out = []
+    slot = z3.BitVec("slot", 256)
+    f_sha3 = z3.Function(f_sha3_256_name, z3.BitVecSort(256), z3.BitVecSort(256))
+    h = f_sha3(slot)
+    off = z3.BitVec("off", 256)
+    shapes = {
+        "opaque condition": lambda: z3.Bool("c"),
+        "literally true": lambda: z3.BoolVal(True),
+        "literally false": lambda: z3.BoolVal(False),
+        "negated opaque condition": lambda: z3.Not(z3.Bool("c")),
+        "dynamic-array overflow pattern (offset 2^64-1)": lambda: z3.Not(z3.ULE(h, z3.BitVecVal(2**64 - 1, 256) + h)),
+        "dynamic-array overflow pattern (offset 1)": lambda: z3.Not(z3.ULE(h, z3.BitVecVal(1, 256) + h)),
+        "overflow-like, offset 2^64 (outside the assumption)": lambda: z3.Not(z3.ULE(h, z3.BitVecVal(2**64, 256) + h)),
+        "overflow-like, symbolic offset": lambda: z3.Not(z3.ULE(h, off + h)),
+        "overflow-like, different bases": lambda: z3.Not(z3.ULE(h, z3.BitVecVal(1, 256) + f_sha3(off))),
+        "overflow-like, not a hash": lambda: z3.Not(z3.ULE(slot, z3.BitVecVal(1, 256) + slot)),
+        "overflow-like, unnegated": lambda: z3.ULE(h, z3.BitVecVal(1, 256) + h),
+        "overflow-like, ULT": lambda: z3.Not(z3.ULT(h, z3.BitVecVal(1, 256) + h)),
+    }
+    for name, mk in shapes.items():
+
+        def harness(interp, mk=mk):
+            ctx = interp.ctx
+            PC = z3.Bool("PC")
+            cond = mk()
+            # documented modelling assumption: every hash term on the path carries its range axiom
+            ctx.assume(z3.Implies(PC, z3.ULE(h, z3.BitVecVal(2**256 - 2**64, 256))))
+            ctx.assume(z3.Implies(PC, z3.ULE(f_sha3(off), z3.BitVecVal(2**256 - 2**64, 256))))
+            oracle = Oracle(ctx, PC)
+            ex = object.__new__(hs.Exec)
+            ex.path = NS(conditions=GhostConds(ctx, PC), check=oracle)
+            interp.externals[("contains", GhostConds)] = _ghost_conds_contains
+            try:
+                r = interp.call(hs.Exec.__dict__["check"], [ex, cond], {})
+            except PathEnd:
+                raise
+            except BaseException as e:
+                if isinstance(e, _ENGINE):
+                    raise
+                ctx.oblige(f"no-exception[{type(e).__name__}]", z3.BoolVal(False), info={"msg": str(e)[:200]})
+                return
+            ctx.oblige("answer-is-a-solver-verdict", z3.BoolVal(r in (z3.sat, z3.unsat, z3.unknown)), info={"r": str(r)})
+            if r == z3.unsat:
+                ctx.oblige("unsat only if the path condition excludes the query (proved, present negated, literally false, or the documented hash-range pattern)", z3.Implies(PC, z3.Not(cond)), info={"asked": str(oracle.asked)[:120]})
+            if oracle.asked:
+                ctx.oblige("the solver is asked about the query itself", z3.BoolVal(len(oracle.asked) == 1) if True else None)
+                q = oracle.asked[0][0]
+                ctx.oblige("the solver is asked about an equivalent query", q == cond)
+                ctx.oblige("the solver's answer is returned unchanged", z3.BoolVal(str(r) == oracle.asked[0][1]))
+
+        out.append(Case(f"{PROP}/sevm.Exec.check", name, harness, replay=replay_check, sources=("halmos.sevm:Exec.check", "halmos.sevm:Exec.quick_custom_check", "halmos.utils:match_dynamic_array_overflow_condition")))
+    return out
+
+
+def replay_check(r):
+    """real Exec.check on real paths: `unsat` must never be returned for a query that the path
+    condition (plus the documented hash-range axiom) admits"""
+    from contracts.common import mk_ex, mk_sevm
+    from halmos.utils import f_sha3_256_name
+
+    slot, off, x = z3.BitVecs("slot off x", 256)
+    f_sha3 = z3.Function(f_sha3_256_name, z3.BitVecSort(256), z3.BitVecSort(256))
+    h = f_sha3(slot)
+    hrange = z3.ULE(h, z3.BitVecVal(2**256 - 2**64, 256))
+    queries = [
+        z3.Not(z3.ULE(h, z3.BitVecVal(2**64, 256) + h)),
+        z3.Not(z3.ULE(h, off + h)),
+        z3.Not(z3.ULE(slot, z3.BitVecVal(1, 256) + slot)),
+        z3.Not(z3.ULT(h, z3.BitVecVal(1, 256) + h)),
+        z3.ULE(h, z3.BitVecVal(1, 256) + h),
+        z3.Not(z3.ULE(h, z3.BitVecVal(1, 256) + f_sha3(off))),
+        x == 1,
+        z3.Not(x == 1),
+        z3.UGT(x, 5),
+    ]
+    for pre in ([], [x == 1], [z3.Not(x == 1)], [z3.UGT(x, 7)]):
+        for q in queries:
+            sevm = mk_sevm()
+            ex = mk_ex(sevm)
+            ex.path.append(hrange)
+            for p in pre:
+                ex.path.append(p)
+            try:
+                got = ex.check(q)
+            except Exception as e:  # noqa
+                return {"reproduced": True, "detail": f"Exec.check({q}) raised {type(e).__name__}: {e}"}
+            if got == z3.unsat:
+                s = z3.Solver()
+                s.add(hrange, *pre)
+                s.add(q)
+                if s.check() == z3.sat:
+                    return {"reproduced": True, "detail": f"Exec.check answered unsat for the query {q} under path conditions {pre} (+ hash range axiom), but z3 finds it satisfiable: a feasible branch would be discarded", "inputs": str(q)}
+    return {"reproduced": False, "detail": "real Exec.check never answered unsat for a satisfiable query on the replay grid"}
+
+
+# ---------------------------------------------------------------------------------------
+# Exec.select: store-chain skipping
+
+
+def select_cases():
+    import halmos.sevm as hs
+
+    out = []
+    S160, S256 = z3.BitVecSort(160), z3.BitVecSort(256)
+    for shape in ("store(base,k0,v0), same key term", "store(base,k0,v0), other key term", "no definition", "initial empty array", "initial empty array, symbolic mode"):
+
+        def harness(interp, shape=shape):
+            ctx = interp.ctx
+            PC = z3.Bool("PC")
+            A = z3.Array("storage_user_7_1_0_01", S256, S256) if not shape.startswith("initial") else z3.Array("storage_user_7_1_0_00", S256, S256)
+            B = z3.Array("storage_user_7_1_0_00x", S256, S256)
+            k, k0, v0 = z3.BitVecs("k k0 v0", 256)
+            arrays = {}
+            key = k
+            if shape.startswith("store"):
+                arrays[A] = z3.Store(B, k0, v0)
+                # the definition of every updated array is a path condition (added when the store was made)
+                ctx.assume(z3.Implies(PC, A == z3.Store(B, k0, v0)))
+                if "same key" in shape:
+                    key = k0
+            if shape.startswith("initial"):
+                # documented: arrays named *_00 are the empty initial arrays (their emptiness axiom is a path condition)
+                ctx.assume(z3.Implies(PC, z3.Select(A, key) == 0))
+            oracle = Oracle(ctx, PC)
+            ex = object.__new__(hs.Exec)
+            ex.check = oracle
+            rec = []
+
+            def rec_select(i, a, kw):
+                # inductive hypothesis for the recursive call on the base array
+                rec.append(a[1:])
+                return z3.Select(a[1], a[2])
+
+            fn = hs.Exec.__dict__["select"]
+            interp.contracts["halmos.sevm:Exec.check"] = lambda i, a, kw: oracle(a[1])
+            depth = {"n": 0}
+            orig = interp.call
+
+            def call_hook(f, args, kwargs):
+                if f is fn:
+                    depth["n"] += 1
+                    if depth["n"] > 1:
+                        depth["n"] -= 1
+                        return rec_select(interp, args, kwargs)
+                    try:
+                        return orig(f, args, kwargs)
+                    finally:
+                        depth["n"] -= 1
+                return orig(f, args, kwargs)
+
+            interp.call = call_hook
+            symbolic = shape.endswith("symbolic mode")
+            r = interp.call(fn, [ex, A, key, arrays, symbolic], {})
+            if hasattr(r, "as_z3"):
+                r = r.as_z3()
+            if isinstance(r, int):
+                r = z3.BitVecVal(r, 256)
+            ctx.oblige("result denotes Select(array, key) under the path condition", z3.Implies(PC, r == z3.Select(A, key)), info={"result": str(r)[:80], "asked": str(oracle.asked)[:120]})
+            if shape.endswith("symbolic mode"):
+                ctx.oblige("symbolic-storage mode: the initial array is not assumed empty", z3.BoolVal(not z3.is_bv_value(r)))
+
+        out.append(Case(f"{PROP}/sevm.Exec.select", shape, harness, sources=("halmos.sevm:Exec.select",)))
+    return out
+
+
+# ---------------------------------------------------------------------------------------
+# calldataload: one successor per size candidate
+
+
+def calldataload_cases():
+    import halmos.bitvec as hb
+    import halmos.sevm as hs
+
+    out = []
+    for shape in ("plain word", "size symbol with 3 candidates", "size symbol already fixed by the path", "symbol without candidates"):
+
+        def harness(interp, shape=shape):
+            ctx = interp.ctx
+            sym = z3.BitVec("p_bytes_length", 256)
+            cands = [0, 32, 65]
+            conc = hs.Concretization()
+            loaded = sym
+            if shape == "plain word":
+                loaded = z3.BitVec("p_x", 256) + 1
+            elif shape.startswith("size symbol with"):
+                conc.candidates[sym] = list(cands)
+            elif shape.startswith("size symbol already"):
+                conc.candidates[sym] = list(cands)
+                conc.substitution[sym] = z3.BitVecVal(32, 256)
+            pushed = []
+            advanced = []
+
+            def mk_state():
+                st = NS(items=[])
+                st.push_any = lambda v: st.items.append(v)
+                return st
+
+            ex = NS(pc=11, path=NS(concretization=conc), st=mk_state())
+            ex.st.pop = lambda: hb.HalmosBitVec(4)
+            ex.int_of = lambda x, msg=None: 4
+            ex.calldata = lambda: NS(get_word=lambda off: loaded if off == 4 else None)
+            ex.advance = lambda: advanced.append(ex)
+            branches = []
+
+            def create_branch(e, cond, pc):
+                nx = NS(pc=pc, st=mk_state(), cond=cond)
+                nx.advance = lambda: advanced.append(nx)
+                branches.append(nx)
+                return nx
+
+            sevm = NS(create_branch=create_branch)
+            stack = NS(push=lambda e: pushed.append(e))
+            interp.call(hs.SEVM.__dict__["calldataload"], [sevm, ex, stack], {})
+            if shape == "size symbol with 3 candidates":
+                ok = len(branches) == 3 and pushed == branches and all(b in advanced for b in branches) and ex not in pushed
+                ctx.oblige("one successor per configured candidate, each pushed and advanced, the undecided state is not continued", z3.BoolVal(ok), info={"branches": len(branches)})
+                for j, cnd in enumerate(cands):
+                    if j < len(branches):
+                        b = branches[j]
+                        ctx.oblige(f"candidate {cnd}: successor carries exactly size == candidate and loads that value", z3.And(b.cond == (sym == cnd), z3.BoolVal(len(b.st.items) == 1 and isinstance(b.st.items[0], int) and b.st.items[0] == cnd and b.pc == 11)))
+                # sigma-coverage within the reported bounds: every valuation whose size is a candidate is covered
+                ctx.oblige("coverage: size in candidates => some successor's condition holds", z3.Implies(z3.Or(*[sym == c_ for c_ in cands]), z3.Or(*[b.cond for b in branches]) if branches else z3.BoolVal(False)))
+            else:
+                want = {"plain word": loaded, "size symbol already fixed by the path": z3.BitVecVal(32, 256), "symbol without candidates": sym}[shape]
+                ok = not branches and pushed == [ex] and advanced == [ex] and len(ex.st.items) == 1
+                ctx.oblige("no branching: the same state continues with the loaded word", z3.BoolVal(ok))
+                if ok:
+                    got = ex.st.items[0]
+                    ctx.oblige("loaded word is the calldata word (or the value the path already fixes it to)", got == want)
+
+        out.append(Case(f"{PROP}/sevm.SEVM.calldataload", shape, harness, sources=("halmos.sevm:SEVM.calldataload",)))
+    return out
+
+
+# ---------------------------------------------------------------------------------------
+# insufficient funds / transfer_value
+
+
+def funds_cases():
+    import halmos.bitvec as hb
+    import halmos.sevm as hs
+    from halmos.exceptions import InfeasiblePath, InsufficientFunds
+
+    out = []
+
+    def harness_insufficient(interp):
+        ctx = interp.ctx
+        PC = z3.Bool("PC")
+        bal, val = z3.BitVecs("caller_balance value", 256)
+        oracle = Oracle(ctx, PC)
+        pushed, branches = [], []
+
+        def create_branch(e, cond, pc):
+            nx = NS(pc=pc, cond=cond, context=NS(trace=[]), st=NS(items=[]), advanced=[])
+            nx.st.push = lambda v: nx.st.items.append(v)
+            nx.advance = lambda: nx.advanced.append(1)
+            branches.append(nx)
+            return nx
+
+        ex = NS(pc=5, check=oracle, balance_of=lambda who: bal, context=NS(depth=1))
+        sevm = NS(create_branch=create_branch)
+        stack = NS(push=lambda e: pushed.append(e))
+        value = hb.HalmosBitVec(val)
+        interp.call(hs.SEVM.__dict__["handle_insufficient_fund_case"], [sevm, "<caller>", value, "<message>", ex, stack], {})
+        insufficient = z3.ULT(bal, val)
+        has = len(branches) == 1 and pushed == branches
+        ctx.oblige("coverage: an input with insufficient balance is covered by a failing successor", z3.Implies(z3.And(PC, insufficient), z3.BoolVal(has)), info={"asked": str(oracle.asked)[:100]})
+        if branches:
+            b = branches[0]
+            ctx.oblige("the failing successor carries exactly balance < value", b.cond == insufficient)
+            sub = b.context.trace[0] if b.context.trace else None
+            ok = sub is not None and isinstance(sub.output.error, InsufficientFunds) and len(b.st.items) == 1 and b.advanced == [1] and b.pc == 5
+            ctx.oblige("the failing successor records the failed call, pushes 0 and continues after the call", z3.BoolVal(ok))
+            if ok:
+                z = b.st.items[0]
+                ctx.oblige("success flag pushed is zero", (z.as_z3() if hasattr(z, "as_z3") else z) == 0)
+
+    out.append(Case(f"{PROP}/sevm.SEVM.handle_insufficient_fund_case", "symbolic value and balance", harness_insufficient, sources=("halmos.sevm:SEVM.handle_insufficient_fund_case",)))
+
+    def harness_zero(interp):
+        ctx = interp.ctx
+        pushed = []
+        ex = NS(check=lambda q: z3.sat, balance_of=lambda who: (_ for _ in ()).throw(AssertionError("balance read for a zero transfer")))
+        interp.call(hs.SEVM.__dict__["handle_insufficient_fund_case"], [NS(), "<caller>", hb.HalmosBitVec(0), "<message>", ex, NS(push=lambda e: pushed.append(e))], {})
+        ctx.oblige("zero value: no failing branch (a zero transfer cannot be insufficient)", z3.BoolVal(pushed == []))
+
+    out.append(Case(f"{PROP}/sevm.SEVM.handle_insufficient_fund_case", "zero value", harness_zero, sources=("halmos.sevm:SEVM.handle_insufficient_fund_case",)))
+
+    for kind in ("symbolic", "conditional", "concrete-nonzero", "concrete-zero"):
+
+        def harness_transfer(interp, kind=kind):
+            ctx = interp.ctx
+            PC = z3.Bool("PC")
+            bal0 = z3.Array("balance_0", z3.BitVecSort(160), z3.BitVecSort(256))
+            caller, to = z3.BitVecs("caller to", 160)
+            val = z3.BitVec("value", 256)
+            path = RecPath()
+            st = {"bal": bal0}
+            ex = NS(path=path)
+            ex.balance_of = lambda who: z3.Select(st["bal"], who)
+
+            def balance_update(who, v):
+                v = v.as_z3() if hasattr(v, "as_z3") else v
+                st["bal"] = z3.Store(st["bal"], who, v)
+
+            ex.balance_update = balance_update
+            value = {"symbolic": hb.HalmosBitVec(val), "conditional": hb.HalmosBitVec(val), "concrete-nonzero": hb.HalmosBitVec(5), "concrete-zero": hb.HalmosBitVec(0)}[kind]
+            vz = value.as_z3()
+            cnd = z3.Bool("transfer_condition") if kind == "conditional" else None
+            try:
+                interp.call(hs.SEVM.__dict__["transfer_value"], [NS(), ex, caller, to, value], {"condition": cnd} if cnd is not None else {})
+            except InfeasiblePath:
+                ctx.oblige("InfeasiblePath only when the balance condition is literally false", z3.BoolVal(False))
+                return
+            except BaseException as e:
+                if isinstance(e, _ENGINE):
+                    raise
+                ctx.oblige(f"no-exception[{type(e).__name__}]", z3.BoolVal(False), info={"msg": str(e)[:200]})
+                return
+            if kind == "concrete-zero":
+                ctx.oblige("zero value: no constraint added, balances unchanged", z3.BoolVal(path.appended == [] and st["bal"] is bal0))
+                return
+            enough = z3.UGE(z3.Select(bal0, caller), vz)
+            ctx.oblige("exactly one constraint is added: balance >= value (the insufficient case is covered by the failing branch)", z3.And(z3.BoolVal(len(path.appended) == 1), path.appended[0][0] == enough) if path.appended else z3.BoolVal(False))
+            eff = z3.If(cnd, vz, z3.BitVecVal(0, 256)) if cnd is not None else vz
+            a = z3.BitVec("any_account", 160)
+            # pointwise conservation against the EVM rule (debit then credit, self-transfer nets to zero)
+            want = z3.Store(z3.Store(bal0, caller, z3.Select(bal0, caller) - eff), to, z3.Select(z3.Store(bal0, caller, z3.Select(bal0, caller) - eff), to) + eff)
+            ctx.oblige("balances after = debit caller then credit recipient, every other account untouched", z3.Select(st["bal"], a) == z3.Select(want, a))
+            ctx.oblige("self-transfer leaves the balance unchanged", z3.Implies(caller == to, z3.Select(st["bal"], caller) == z3.Select(bal0, caller)))
+
+        out.append(Case(f"{PROP}/sevm.SEVM.transfer_value", kind, harness_transfer, sources=("halmos.sevm:SEVM.transfer_value",)))
+    return out
+
+
 def build_cases(tier="quick"):
-    return jumpi_cases()
+    return jumpi_cases() + check_cases() + select_cases() + calldataload_cases() + funds_cases()
 
 
 ASSUMPTIONS = [
